@@ -28,6 +28,8 @@ Record guards := {
   g_ints_walk_once : bool;  (* WalkPassthrough does not re-enter an endpoint that is being expanded further up the chain *)
   g_dm_path : bool;         (* DrawRelation tests the path length before Path[1] *)
   g_swagger_rest : bool;    (* populateEndpoint tests the number of words before [1] *)
+  g_sw_param_schema : bool; (* setCommonAttributes creates the parameter's Schema when it is nil *)
+  g_oa3_ret_split : bool;   (* mapResponse splits the return payload on the same text it tested for ("<:") *)
   g_db_path : bool;         (* findTableDepth does not index Path directly *)
   g_db_writer_path : bool;  (* writeCreateSQLForAColumn / writeModifySQLForAColumn do not index Path directly *)
   g_db_progress : bool;     (* processTableDepth stops when a pass completes no table *)
@@ -37,17 +39,24 @@ Record guards := {
 }.
 
 Definition all_guarded (g:guards) : bool :=
-  g_ints_target g && g_ints_walk_once g && g_dm_path g && g_swagger_rest g && g_db_path g &&
+  g_ints_target g && g_ints_walk_once g && g_dm_path g && g_swagger_rest g && g_sw_param_schema g &&
+  g_oa3_ret_split g && g_db_path g &&
   g_db_writer_path g && g_db_progress g && g_mseq_err g && g_mint_app g && g_render_recover g.
 
 Record call := { c_app : N; c_ep : N; c_alt : bool }.
+(* a URL or query parameter as exporter.findSwaggerType sees its type *)
+Inductive pclass := PPrim       (* primitive, enum or no type: a plain swagger type *)
+                  | PObj        (* tuple, relation or type reference: swagger type "object" *)
+                  | PErr.       (* anything else (sequence, set, list, map, one-of): "none of the Swagger Types match" *)
 Record endpoint := {
   e_name : N;
   e_words : N;            (* number of " "-separated words of the endpoint name: 1 for RPC, 2 for "GET /path" *)
   e_calls : list call;
   e_acts : list N;        (* action statements (the app names a project view lists), interned *)
   e_pass : list N;        (* passthrough=[...] attribute *)
-  e_excl : list N         (* exclude=[...] attribute *)
+  e_excl : list N;        (* exclude=[...] attribute *)
+  e_params : list pclass; (* RestParams: URL parameters, then query parameters, in order *)
+  e_rets : list bool      (* top-level return statements: does the payload contain "<:" but not " <: " *)
 }.
 Record field := { f_name : N; f_ref : option (list N) }.   (* Some path iff GetTypeRef() != nil *)
 Record typ := { t_name : N; t_table : bool; t_fields : list field }.
@@ -173,13 +182,31 @@ Definition dm_project (g:guards) (m:module) (project:N) (epname:bool) : outcome 
   end.
 
 (* ---------------- export -f swagger|openapi2 ---------------- *)
+(* setEndpointParams + setCommonAttributes over URL then query parameters *)
+Fixpoint sw_params (g:guards) (ps:list pclass) : outcome :=
+  match ps with
+  | [] => Ok
+  | PPrim :: r => sw_params g r
+  | PObj :: r => if g_sw_param_schema g then sw_params g r else Panic SSwaggerParam
+  | PErr :: _ => Err
+  end.
 Definition sw_ep (g:guards) (e:endpoint) : outcome :=
-  if e_words e <? 2 then (if g_swagger_rest g then Ok else Panic SSwaggerSplit) else Ok.
+  if e_words e <? 2 then (if g_swagger_rest g then Ok else Panic SSwaggerSplit) else sw_params g (e_params e).
 Definition sw_app (g:guards) (a:app) : outcome := first_bad (map (sw_ep g) (a_eps a)).
 Definition swagger (g:guards) (m:module) (sel:option N) : outcome :=
   match sel with
   | None => match m with [] => Err | _ => first_bad (map (sw_app g) m) end
   | Some n => match find_app m n with None => Err | Some a => sw_app g a end      (* "app not found in the Sysl file" *)
+  end.
+
+(* ---------------- export -f openapi3: syslwrapper.AppMapper.mapEndpoints / mapResponse ---------------- *)
+Definition oa3_ep (g:guards) (e:endpoint) : outcome :=
+  first_bad (map (fun bad:bool => if bad then (if g_oa3_ret_split g then Ok else Panic SOa3RetSplit) else Ok) (e_rets e)).
+Definition oa3_app (g:guards) (a:app) : outcome := first_bad (map (oa3_ep g) (a_eps a)).
+Definition openapi3 (g:guards) (m:module) (sel:option N) : outcome :=
+  match sel with
+  | None => match m with [] => Err | _ => first_bad (map (oa3_app g) m) end
+  | Some n => match find_app m n with None => Err | Some a => oa3_app g a end
   end.
 
 (* ---------------- generate-db-scripts ---------------- *)
@@ -243,6 +270,7 @@ Inductive cmd :=
 | CDmDirect (epname:bool)             (* datamodel -d ; epname = the output name contains %(epname) *)
 | CDmProject (project:N) (epname:bool)
 | CSwagger (a:option N)               (* export -f swagger|openapi2 [-a a] *)
+| COpenapi3 (a:option N)              (* export -f openapi3 [-a a] *)
 | CDbCreate (apps:list N).            (* generate-db-scripts -a a,b *)
 
 (* diagramCmd.Execute: generator, then the external renderer (rend = a browser is installed) *)
@@ -260,6 +288,7 @@ Definition run (g:guards) (m:module) (rend:bool) (fuel:nat) (c:cmd) : outcome :=
   | CDmDirect ep => dm_direct g m ep
   | CDmProject p ep => dm_project g m p ep
   | CSwagger a => swagger g m a
+  | COpenapi3 a => openapi3 g m a
   | CDbCreate apps => db_create g m fuel apps
   end.
 
